@@ -80,22 +80,39 @@ func checkC18(c c18Case) (Outcome, error) {
 	bits := make([][]bool, len(c.Inputs))
 	snapD := make([][]byte, len(c.Inputs))
 	snapB := make([][]bool, len(c.Inputs))
+	// Inputs are handed over as windows of larger buffers (cap > len), the way a caller slices samples out
+	// of one long capture; the guard regions before and after the window belong to the caller too.
+	const guard = 64
 	for i, q := range c.Inputs {
-		bits[i] = q.Expand()
-		data[i] = gen.Pack(bits[i])
-		snapD[i] = append([]byte{}, data[i]...)
-		snapB[i] = append([]bool{}, bits[i]...)
+		e := q.Expand()
+		bufB := make([]bool, guard+len(e)+guard)
+		for k := range bufB {
+			bufB[k] = k%3 == 0
+		}
+		copy(bufB[guard:], e)
+		d := gen.Pack(e)
+		bufD := make([]byte, guard+len(d)+guard)
+		for k := range bufD {
+			bufD[k] = byte(k * 7)
+		}
+		copy(bufD[guard:], d)
+		bits[i] = bufB[guard : guard+len(e)]
+		data[i] = bufD[guard : guard+len(d)]
+		snapD[i] = append([]byte{}, bufD...)
+		snapB[i] = append([]bool{}, bufB...)
 	}
 	untouched := func(when string) error {
 		for i := range data {
-			for j := range data[i] {
-				if data[i][j] != snapD[i][j] {
-					return violation("input-modified", "%s: byte %d of input %d was modified (%#x -> %#x)", when, j, i, snapD[i][j], data[i][j])
+			fullD := data[i][:cap(data[i])]
+			for j, want := range snapD[i][guard:] {
+				if fullD[j] != want {
+					return violation("input-modified", "%s: byte %d of the buffer behind input %d (window length %d) was modified (%#x -> %#x)", when, j, i, len(data[i]), want, fullD[j])
 				}
 			}
-			for j := range bits[i] {
-				if bits[i][j] != snapB[i][j] {
-					return violation("input-modified", "%s: bit %d of input %d was modified", when, j, i)
+			fullB := bits[i][:cap(bits[i])]
+			for j, want := range snapB[i][guard:] {
+				if fullB[j] != want {
+					return violation("input-modified", "%s: bit %d of the buffer behind input %d (window length %d) was modified", when, j, i, len(bits[i]))
 				}
 			}
 		}
